@@ -360,9 +360,9 @@ def window(rng, crop, seasons=(1, 3), pre=(0, 0, 5, 40), year_range=(1985, 2015)
     elif shape == "feb29":
         floor_ = last_p + dt.timedelta(days=L + 40)
         yy = floor_.year
-        while not (yy % 4 == 0 and (yy % 100 != 0 or yy % 400 == 0)) or dt.date(yy, 2, 28) < floor_:
+        while not (yy % 4 == 0 and (yy % 100 != 0 or yy % 400 == 0)) or dt.date(yy, 2, 29) < floor_:
             yy += 1
-        end = dt.date(yy, 2, 28)  # 29 Feb as an end date is D11; generated by C16 only
+        end = dt.date(yy, 2, 29)
     else:
         end = last_p + dt.timedelta(days=L + int(rng.integers(120, 400)))
     if end <= start + dt.timedelta(days=2):
